@@ -25,7 +25,7 @@ use vh::alloc;
 use vh::*;
 
 const MAX: usize = 160 * 1024;
-const WALL_MS: u64 = 60_000;
+const WALL_MS: u64 = 5_000;
 /// consecutive zero-byte reads after which the counting reader declares a livelock (a correct parser
 /// polls an exhausted / full reader at most a handful of times before it grows, recovers or returns)
 const ZERO_READ_LIMIT: usize = 1_000;
@@ -582,9 +582,10 @@ fn main() {
             "C09 only requires 'returns Ok or Err' for input without a final newline: outcomes are not compared across read chunkings (that is C10 / F8)".into(),
             "a line of total length <= MAX_BUFFER_CAPACITY may be parsed or dropped (documented as fuzzy: 'at least 80KB, at most 160KB'); for INFO/PUBLIC/FILE lines the result must equal the reference without the line, or the reference plus exactly that record; for FUNC / STACK CFI INIT / garbage lines below MAX only totality and the window are judged".into(),
             "the dropped-line equality is required only when the file ends with a newline and a MODULE line precedes the long line".into(),
-            "hang = more than 1000 consecutive zero-byte reads seen by the counting reader (deterministic) or, as a backstop, 60 s wall in the worker".into(),
+            "hang = more than 1000 consecutive zero-byte reads seen by the counting reader (deterministic) or, as a backstop, 5 s wall in the worker (confirmed by the core with a re-run)".into(),
             "the window is observed as bytes_read - bytes_passed_to_callback at every Read::read call and callback call; heap growth is additionally bounded (2*MAX + 1 MiB + 8*prefix, + 3*line when the line fits) in the longline space when allocation counting is on (sandbox workers)".into(),
             "parse_async is not driven here (it needs the http supplier; C10/C16 bind it)".into(),
+            "part (d) runs in the scaled build (hook H1): every single line length, all pairs/triples/quadruples over threshold menus, under 11 reader schedules; a hang there is reported by that child (30 s wall per case)".into(),
         ];
         def.extra.insert("MAX_BUFFER_CAPACITY".into(), json!(MAX));
         def.extra.insert("sequence_depth".into(), json!(depth));
@@ -592,6 +593,44 @@ fn main() {
         def.extra.insert("wall_budget_ms".into(), json!(WALL_MS));
         def.extra.insert("hard_cap_bytes".into(), json!(HARD_CAP));
         def.spaces = vec![longline_space(ctx.tier == Tier::Thorough), fields_space(), seqs_space(depth), corrupt_space(), bytes3_space()];
+        // ---- part (d): growth / discard-to-newline recovery driven exhaustively in the scaled build
+        // (cfg rust_minidump_verif_smallbuf, INITIAL 16 / MAX 256), in a child process
+        let tier_name = ctx.tier.name();
+        def.spaces.push(
+            Space::new(
+                "scaled-buffer",
+                1,
+                move |_, l| {
+                    let exe = std::env::var("VERIF_C09S").ok().map(std::path::PathBuf::from).unwrap_or_else(|| {
+                        let me = std::env::current_exe().expect("current_exe");
+                        me.parent().unwrap().parent().unwrap().parent().unwrap().join("smallbuf/release/c09s")
+                    });
+                    assert!(exe.exists(), "c09: the scaled-buffer helper {exe:?} is not built (run ./check build)");
+                    let out = std::env::temp_dir().join(format!("c09s-{}", std::process::id()));
+                    let _ = std::fs::remove_dir_all(&out);
+                    let st = std::process::Command::new(&exe).arg(tier_name).env("VERIF_OUT_DIR", &out).stdout(std::process::Stdio::null()).status().expect("spawn c09s");
+                    let code = st.code().unwrap_or(2);
+                    assert!(code == 0 || code == 1, "c09: c09s ended with a machinery error (exit {code})");
+                    let ev: Value = serde_json::from_str(&std::fs::read_to_string(out.join("evidence/C09.json")).expect("c09s evidence")).expect("c09s evidence json");
+                    let cov = &ev["coverage"];
+                    l.evals(cov["evaluations"].as_u64().unwrap_or(0));
+                    l.count("scaled_buffer_parses", cov["evaluations"].as_u64().unwrap_or(0));
+                    l.count("scaled_buffer_distinct", cov["distinct_nontrivial"].as_u64().unwrap_or(0));
+                    l.distinct(&("scaled-buffer", cov["distinct_nontrivial"].as_u64()));
+                    for (k, n) in cov["observed_outcomes"].as_object().into_iter().flatten() {
+                        if n.as_u64().unwrap_or(0) > 0 {
+                            l.outcome(&format!("scaled: {k}"));
+                        }
+                    }
+                    for v in cov["all_violations"].as_array().into_iter().flatten() {
+                        l.violation(v["signature"].as_str().unwrap_or("?"), format!("[scaled buffer] {}", v["what"].as_str().unwrap_or("?")), v["detail"].clone());
+                    }
+                    let _ = std::fs::remove_dir_all(&out);
+                },
+                |_| json!({"class": "scaled", "helper": "c09s (build with cfg rust_minidump_verif_smallbuf, INITIAL 16 / MAX 256)"}),
+            )
+            .wall(3_600_000),
+        );
         def
     })
 }
